@@ -18,6 +18,8 @@
 #include <atomic>
 #include <cstring>
 #include <iostream>
+#include <mutex>
+#include <stdexcept>
 #include <random>
 #include <sstream>
 #include <thread>
@@ -125,6 +127,48 @@ struct RecSink : Sink {
         return true;
     }
 };
+struct ThrowOnMarker : Handler {
+    bool process(LogMessage &m) override
+    {
+        if (m.message() == QLatin1String("throw")) throw std::runtime_error("handler failed");
+        return true;
+    }
+};
+struct EnterExitSink : Sink {      // for pipelines built with the fluent API: entry and delivery recorded by the sink itself
+    void send(const LogMessage &m) override
+    {
+        int p, i; parse(m, p, i);
+        record('E', p, i, 0);
+        QVariant v = m.attribute("seq_number");
+        record('X', p, i, v.isValid() ? v.toInt() : -1);
+    }
+};
+static std::mutex g_fmt_mx;
+static long g_fmt_checked = 0, g_fmt_bad = 0;
+static std::string g_fmt_first;
+struct FmtSink : Sink {
+    char tag; QString pre, post; bool calibrating = true;
+    explicit FmtSink(char t) : tag(t) { }
+    void send(const LogMessage &m) override
+    {
+        const QString got = m.formattedMessage();
+        if (calibrating) {        // single-threaded: learn what this pipeline's formatter puts around the message text
+            int at = got.indexOf(m.message());
+            pre = got.left(at); post = got.mid(at + m.message().size());
+            return;
+        }
+        const QString want = pre + m.message() + post;
+        std::lock_guard<std::mutex> l(g_fmt_mx);
+        g_fmt_checked++;
+        if (got != want) {
+            if (!g_fmt_bad++) {
+                int p, i; parse(m, p, i);
+                g_fmt_first = std::string(1, tag) + ":" + std::to_string(p) + ":" + std::to_string(i) + ":" +
+                              got.toUtf8().toHex().constData() + ":" + want.toUtf8().toHex().constData();
+            }
+        }
+    }
+};
 template <class P> static void build(P &pl, bool dup)
 {
     auto first = QSharedPointer<RandomWork>::create();
@@ -153,7 +197,90 @@ int main(int argc, char **argv)
             tl_prod = -1;
         };
         std::vector<std::thread> ths;
-        if (mode == "logger" || mode == "mixed" || mode == "fatal" || mode == "mixed+fatal") {
+        std::atomic<bool> finished{false};
+        g_fmt_checked = g_fmt_bad = 0; g_fmt_first.clear();
+        auto dump_run = [&](const char *extra) {
+            long cnt = std::min<long>(g_ticket.load(), (long)g_events.size());
+            std::ostringstream o;
+            o << "RUN " << mode << " " << n << " " << per << " " << seed << " " << g_perturb << " " << dup
+              << " events=" << g_ticket.load() << (g_ticket.load() > (long)g_events.size() ? " OVERFLOW" : "") << extra;
+            if (mode == "pattern") o << " fmt_checked=" << g_fmt_checked << " fmt_bad=" << g_fmt_bad << " first_bad=" << (g_fmt_first.empty() ? "-" : g_fmt_first);
+            o << "\n";
+            for (long k = 0; k < cnt; k++) {
+                const Ev &e = g_events[k];
+                o << e.kind << "." << e.prod << "." << e.idx;
+                if (e.kind == 'X') o << "." << e.seq;
+                o << " ";
+            }
+            std::cout << o.str() << std::endl;
+        };
+        if (mode == "throw" || mode == "throwlogger") {
+            std::thread([&] {        // watchdog: a handler mutex left locked blocks every later message for ever
+                for (int k = 0; k < 80 && !finished.load(); k++) usleep(100 * 1000);
+                if (!finished.load()) { dump_run(" HANG"); fflush(stdout); _exit(0); }
+            }).detach();
+        }
+        if (mode == "throw" || mode == "throwlogger") {
+            OwnThreadHandler<SimplePipeline> h;
+            Logger lg;
+            const bool viaLogger = mode == "throwlogger";
+            SimplePipeline &pl = viaLogger ? static_cast<SimplePipeline &>(lg) : static_cast<SimplePipeline &>(h);
+            pl << QSharedPointer<ThrowOnMarker>::create();
+            if (viaLogger) build(lg, dup); else build(h, dup);
+            for (int p = 0; p < n; p++)
+                ths.emplace_back(producer, p, [&](int p, int i) {
+                    QMessageLogContext ctx("throw.cpp", i, "void thrower()", "default");
+                    const QString text = QString::number(p) + QLatin1Char(' ') + QString::number(i);
+                    if (viaLogger) lg.processMessage((i & 1) ? QtWarningMsg : QtInfoMsg, ctx, text);
+                    else { LogMessage m((i & 1) ? QtWarningMsg : QtInfoMsg, ctx, text); h.process(m); }
+                    if (p == 0 && i == 0) {          // the marker: the user handler throws, the caller catches and goes on
+                        tl_idx = -1;
+                        try {
+                            if (viaLogger) lg.processMessage(QtWarningMsg, ctx, QStringLiteral("throw"));
+                            else { LogMessage m(QtWarningMsg, ctx, QStringLiteral("throw")); h.process(m); }
+                        } catch (const std::exception &) { }
+                    }
+                });
+            for (auto &t : ths) t.join();
+        } else if (mode == "filtered") {
+            OwnThreadHandler<SimplePipeline> h;
+            h.filterLevel(QtWarningMsg).addSeqNumber();
+            h << QSharedPointer<RandomWork>::create() << QSharedPointer<EnterExitSink>::create();
+            for (int p = 0; p < n; p++)
+                ths.emplace_back(producer, p, [&h](int p, int i) {
+                    QMessageLogContext ctx("filtered.cpp", i, "void filtered()", "default");
+                    if (i % 2 == 0) {      // below the level: must be rejected by the filter and must not consume a sequence number
+                        LogMessage low((i & 2) ? QtDebugMsg : QtInfoMsg, ctx, QString::number(p) + QStringLiteral(" -1"));
+                        h.process(low);
+                    }
+                    LogMessage m((i & 1) ? QtCriticalMsg : QtWarningMsg, ctx, QString::number(p) + QLatin1Char(' ') + QString::number(i));
+                    h.process(m);
+                });
+            for (auto &t : ths) t.join();
+        } else if (mode == "pattern") {
+            Logger lg;
+            OwnThreadHandler<SimplePipeline> audit;
+            auto sl = QSharedPointer<FmtSink>::create('L'), sa = QSharedPointer<FmtSink>::create('A');
+            lg.format(QStringLiteral("<%{user?1,1}> %{message}")); lg << sl;
+            audit.format(QStringLiteral("[audit] %{message}")); audit << sa;
+            {   // calibration, single-threaded
+                QMessageLogContext ctx("pattern.cpp", 1, "void pattern()", "default");
+                LogMessage a(QtInfoMsg, ctx, QStringLiteral("@@calib@@")), b(QtInfoMsg, ctx, QStringLiteral("@@calib@@"));
+                lg.process(a); audit.process(b);
+                sl->calibrating = sa->calibrating = false;
+            }
+            lg.installMessageHandler();
+            for (int p = 0; p < n; p++)
+                ths.emplace_back(producer, p, [&audit](int p, int i) {
+                    if (p & 1) {
+                        QMessageLogContext ctx("pattern.cpp", i, "void audit()", "default");
+                        LogMessage m(QtInfoMsg, ctx, QString::number(p) + QLatin1Char(' ') + QString::number(i));
+                        audit.process(m);
+                    } else qInfo("%d %d", p, i);
+                });
+            for (auto &t : ths) t.join();
+            Logger::restorePreviousMessageHandler();
+        } else if (mode == "logger" || mode == "mixed" || mode == "fatal" || mode == "mixed+fatal") {
             Logger lg;
             build(lg, dup);
             lg.installMessageHandler();
@@ -183,17 +310,8 @@ int main(int argc, char **argv)
                 });
             for (auto &t : ths) t.join();
         }
-        long cnt = std::min<long>(g_ticket.load(), (long)g_events.size());
-        std::ostringstream o;
-        o << "RUN " << mode << " " << n << " " << per << " " << seed << " " << g_perturb << " " << dup
-          << " events=" << g_ticket.load() << (g_ticket.load() > (long)g_events.size() ? " OVERFLOW" : "") << "\n";
-        for (long k = 0; k < cnt; k++) {
-            const Ev &e = g_events[k];
-            o << e.kind << "." << e.prod << "." << e.idx;
-            if (e.kind == 'X') o << "." << e.seq;
-            o << " ";
-        }
-        std::cout << o.str() << std::endl;
+        finished = true;
+        dump_run("");
     }
     return 0;
 }
